@@ -1126,3 +1126,58 @@ func liftPass(pass func(ssa.Instruction) bool, depth int) func(ssa.Instruction) 
 	}
 	return func(in ssa.Instruction) bool { return lifted(in, depth) }
 }
+
+// cmpEdges returns the edges on which the relation "X rel Y" is known to hold,
+// for comparisons whose operands satisfy px and py, whatever form the source
+// uses (x < y, !(x >= y), y > x, ...). rel is one of "<", "<=", ">", ">=".
+func cmpEdges(fn *ssa.Function, rel string, px, py func(ssa.Value) bool) []Edge {
+	switch rel {
+	case ">":
+		return cmpEdges(fn, "<", py, px)
+	case ">=":
+		return cmpEdges(fn, "<=", py, px)
+	}
+	var strictOp, weakOp token.Token = token.LSS, token.LEQ
+	var out []Edge
+	if rel == "<" {
+		// X < Y: true edge of LSS(X,Y); false edge of LEQ(Y,X)
+		out = append(out, condEdges(fn, true, func(a Atom) bool { return a.Op == strictOp && px(a.X) && py(a.Y) })...)
+		out = append(out, condEdges(fn, false, func(a Atom) bool { return a.Op == weakOp && py(a.X) && px(a.Y) })...)
+	} else {
+		// X <= Y: true edge of LEQ(X,Y); false edge of LSS(Y,X)
+		out = append(out, condEdges(fn, true, func(a Atom) bool { return a.Op == weakOp && px(a.X) && py(a.Y) })...)
+		out = append(out, condEdges(fn, false, func(a Atom) bool { return a.Op == strictOp && py(a.X) && px(a.Y) })...)
+	}
+	return out
+}
+
+// guardedUp: is instruction `in` reachable only through certifying edges, where
+// the edges of a function are computed by mk from value patterns (field loads,
+// constants)? If `in` is not guarded inside its own function, every call site of
+// that function must be (transitively, up to depth): extracting a guarded action
+// into a helper does not change the verdict. It returns the unguarded site and a
+// path when the answer is no.
+func (p *Prog) guardedUp(in ssa.Instruction, mk func(fn *ssa.Function) []Edge, depth int) (bool, ssa.Instruction, []*ssa.BasicBlock) {
+	fn := in.Parent()
+	edges := mk(fn)
+	path := reachableWithout(fn, in, edges)
+	if len(edges) > 0 && path == nil {
+		return true, nil, nil
+	}
+	if depth <= 0 {
+		return false, in, path
+	}
+	callers := p.realCallers(fn)
+	if len(callers) == 0 {
+		return false, in, path
+	}
+	for _, ci := range callers {
+		if _, isGo := ci.(*ssa.Go); isGo {
+			return false, ci, nil
+		}
+		if ok, where, pth := p.guardedUp(ci, mk, depth-1); !ok {
+			return false, where, pth
+		}
+	}
+	return true, nil, nil
+}
